@@ -100,8 +100,10 @@ Definition entry_descr (c : et_catalog) : list (Z * Z) :=
   (pf0, e_sector_count (c_initial c))
     :: flat_map (fun h => map (fun e => (h_platform_id h, e_sector_count e)) (h_entries h)) (c_sections c)
     ++ map (fun e => (pf0, e_sector_count e)) (c_standalone c).
-Definition hentry : Type := (nat * (Z * Z))%type.
-Definition hentries (b : boot) : list hentry := combine (binos b) (entry_descr (bcat b)).
+(* (index of the entry, (inode, (platform id, sector_count))): the index stands for id(enc.entry) *)
+Definition hentry : Type := (nat * (nat * (Z * Z)))%type.
+Definition hentries (b : boot) : list hentry :=
+  let l := combine (binos b) (entry_descr (bcat b)) in combine (seq 0 (length l)) l.
 
 Definition henc : Type := (ident * hentry)%type.
 Fixpoint hinsort (x : henc) (l : list henc) : list henc :=
@@ -110,14 +112,14 @@ Fixpoint hinsort (x : henc) (l : list henc) : list henc :=
   | y :: r => if bytes_ltb (fst x) (fst y) then x :: l else y :: hinsort x r
   end.
 Definition henc_add (root : lnode) (acc : list henc) (e : hentry) : list henc :=
-  match linked_names (fst e) root with
+  match linked_names (fst (snd e)) root with
   | [] => hinsort (dummy_name, e) acc
   | names => fold_left (fun a nm => hinsort (nm, e) a) names acc
   end.
 Definition henc_list (root : lnode) (es : list hentry) : list henc := fold_left (henc_add root) es [].
 
-(* loop state: linked_inodes, num_seen_efi, the hybrid object, "no exception so far" *)
-Record pst := mk_pst { p_seen : list nat; p_nefi : Z; p_hy : hybrid; p_ok : bool }.
+(* loop state: seen_entries, linked_inodes, num_seen_efi, the hybrid object, "no exception so far" *)
+Record pst := mk_pst { p_ents : list nat; p_seen : list nat; p_nefi : Z; p_hy : hybrid; p_ok : bool }.
 
 Definition hy_update_rba (y : hybrid) (ext : Z) : hybrid :=
   mk_hy (ih_update_rba (hy_ih y) ext) (hy_pri y) (hy_sec y).
@@ -130,39 +132,46 @@ Definition hy_update_rba (y : hybrid) (ext : Z) : hybrid :=
    runs the update_efi / update_mac rule with entry_extent = inode.extent_location() and counts in
    num_seen_efi; update_rba only for an enc that is NOT placed; set_data_location / _set_inode
    skipped); [fp] = false: `if id(enc.entry.inode) in linked_inodes: continue`.
+   ed6ec41 (follow-up of b44c076): `if id(enc.entry) in seen_entries: continue` -- the encs of ONE
+   entry (a boot file with several names) are handled once, the first in sort order.  Without
+   b44c076 the later encs of an entry were skipped anyway (their inode is placed), so the test is
+   applied under every switch.
    The current tree is [true true]; the other combinations are kept for the *_old witnesses. *)
 Definition push_step_gen (fx fp : bool) (s : bstate) (st : pst) (e : henc) : pst :=
   if negb (p_ok st) then st else
-  let i := fst (snd e) in
-  let pf := fst (snd (snd e)) in
-  let sc := snd (snd (snd e)) in
+  let k := fst (snd e) in
+  let i := fst (snd (snd e)) in
+  let pf := fst (snd (snd (snd e))) in
+  let sc := snd (snd (snd (snd e))) in
+  if mem k (p_ents st) then st else
+  let ents := k :: p_ents st in
   let placed := mem i (p_seen st) in
-  if placed && negb fp then st else
+  if placed && negb fp then mk_pst ents (p_seen st) (p_nefi st) (p_hy st) true else
   let seen := if placed then p_seen st else i :: p_seen st in
   let ext := rba_of s i in                  (* current_extent / inode.extent_location() *)
   let iso_size := lspace (bl s) * C in
-  let fail := mk_pst (p_seen st) (p_nefi st) (p_hy st) false in
+  let fail := mk_pst ents (p_seen st) (p_nefi st) (p_hy st) false in
   let h := hy_ih (p_hy st) in
   if pf =? 239 then
     if (p_nefi st =? 0) && (negb fx || ih_efi h) then
       match hy_update_efi (p_hy st) ext sc iso_size with
-      | Some y => mk_pst seen (p_nefi st + 1) y true
+      | Some y => mk_pst ents seen (p_nefi st + 1) y true
       | None => fail                        (* 'Attempted to set EFI lba on a non-EFI ISO' (old) *)
       end
     else if (p_nefi st =? 1) && (negb fx || ih_mac h) then
       match hy_update_mac (p_hy st) ext sc with
-      | Some y => mk_pst seen (p_nefi st + 1) y true
+      | Some y => mk_pst ents seen (p_nefi st + 1) y true
       | None => fail                        (* 'Attempted to set Mac lba on a non-Mac ISO' (old) *)
       end
-    else if fx then mk_pst seen (p_nefi st + 1) (p_hy st) true
+    else if fx then mk_pst ents seen (p_nefi st + 1) (p_hy st) true
     else fail                               (* 'Only expected two EFI sections' (old) *)
-  else if (pf =? 0) && negb placed then mk_pst seen (p_nefi st) (hy_update_rba (p_hy st) ext) true
-  else mk_pst seen (p_nefi st) (p_hy st) true.
+  else if (pf =? 0) && negb placed then mk_pst ents seen (p_nefi st) (hy_update_rba (p_hy st) ext) true
+  else mk_pst ents seen (p_nefi st) (p_hy st) true.
 
 Definition push_gen (fx fp : bool) (s : bstate) (y : hybrid) : pst :=
   match bboot s with
-  | Some b => fold_left (push_step_gen fx fp s) (henc_list (lroot (bl s)) (hentries b)) (mk_pst [] 0 y true)
-  | None => mk_pst [] 0 y true
+  | Some b => fold_left (push_step_gen fx fp s) (henc_list (lroot (bl s)) (hentries b)) (mk_pst [] [] 0 y true)
+  | None => mk_pst [] [] 0 y true
   end.
 Definition push_step := push_step_gen true true.
 Definition push := push_gen true true.
